@@ -161,21 +161,23 @@ QUOTED_SPLIT_RE = re.compile(r"(%[0-9A-Fa-f]{2})")
 QUOTED_RE = re.compile(r"^%[0-9A-Fa-f]{2}$")
 
 
-def safely_quote_iter(string):
+def safely_quote_iter(string, safe="/"):
     for piece in QUOTED_SPLIT_RE.split(string):
         if QUOTED_RE.match(piece):
             yield piece
         else:
-            yield quote(piece)
+            yield quote(piece, safe)
 
 
-def safely_quote(string):
-    return "".join(safely_quote_iter(string))
+def safely_quote(string, safe="/"):
+    return "".join(safely_quote_iter(string, safe))
 
 
+# NOTE: a raw "=" in a query value and a raw ":" in a password are harmless and
+# must not be quoted since unquoting would then leave them quoted
 def safely_quote_qsl(qsl):
     return [
-        (safely_quote(key), safely_quote(value) if value is not None else None)
+        (safely_quote(key), safely_quote(value, "/=") if value is not None else None)
         for key, value in qsl
     ]
 
